@@ -2,7 +2,7 @@
 import re
 
 from ..absint import check_panic_freedom
-from ..cfg import Renderer, walk, show, flat_guards, branches
+from ..cfg import Renderer, walk, show, flat_guards, branches, guards_of
 from ..facts import callee_names, short
 from ..util import view, crate_fns, root_name, expr_calls, expr_fields, expr_vars
 from .c05 import ceval
@@ -37,6 +37,7 @@ def run(prog, rep, tier):
                         cast_filter=lambda ob: ob.kind.startswith("cast:usize->"),
                         field_bounds={"rustybgp_packet::bgp::Ipv4Net": (1, 32), "rustybgp_packet::bgp::Ipv6Net": (1, 128)})
     check_value_invariants(prog, r2)
+    check_unknown_arm(prog, r2)
     r4 = rep.rule("R17.4", "every attribute attr_to_api can build has an explicit arm in attr_from_api")
     check_arms(prog, r4)
 
@@ -63,12 +64,11 @@ def check_ctor_classes(prog, r):
                         r.fail(rn, "opaque-known-code", "new_opaque is reachable for a code that may be a known attribute: encode dispatches on the code alone", fv.loc(bi))
                     continue
                 if v is None:
-                    # non-constant code: must be guarded by the class test
-                    gs = flat_guards(fv, bi)
-                    txt = " ".join(show(g, 120) for g, l, h in gs)
-                    guarded = any(str(c_) in txt for c_ in VAL_CODES) and ("code" in txt or "type" in txt)
+                    # non-constant code: the call must be reachable only when the code is outside / inside the value class
+                    excluded, included = _code_tests(fv, bi, t, e)
+                    guarded = (VAL_CODES <= excluded) if cls == "bytes" else (included is not None and included <= VAL_CODES)
                     if guarded:
-                        r.ok("%s: %s with a non-constant code under a class test" % (short(rn), site))
+                        r.ok("%s: %s with a non-constant code under a test of its representation class" % (short(rn), site))
                     else:
                         r.fail(rn, "%s-nonconst-code" % name,
                                "%s is called with a caller-supplied code (%s) and no test of its representation class: a %s payload can be stored under a code whose users unwrap the other form "
@@ -79,6 +79,66 @@ def check_ctor_classes(prog, r):
                 else:
                     r.fail(rn, "%s-wrong-class:%d" % (name, v), "%s called with code %d, which is %s the value class {1,4,5,9}" % (name, v, "in" if v in VAL_CODES else "outside"), fv.loc(bi))
     r.floor("Attribute constructor call sites", n, 40)
+
+
+def _code_tests(fv, bi, t, e):
+    """Values the constructor's code argument is known not to have / to be among at block bi."""
+    gs = flat_guards(fv, bi)
+    en = Renderer(fv, depth=10).operand(t["args"][0], 10)
+    direct = {(repr(g), tuple(sorted(l))) for g, l, h in gs}
+    excluded, included = set(), None
+    for g, l, h in gs:
+        if g[0] == "matches" and l == {"false"}:
+            rest = [(ge, gl) for ge, gl in g[1] if (repr(ge), tuple(sorted(gl))) not in direct]
+            if len(rest) == 1 and rest[0][0] in (en, e):
+                excluded |= {int(x) for x in rest[0][1] if str(x).lstrip("-").isdigit()}
+    for br, labels in guards_of(fv, bi):
+        if br.expr in (en, e) and not br.adt and br.ty != "bool":
+            if labels == {"else"}:
+                excluded |= {int(c) for c, _ in br.cases}      # `_ =>` arm of a match on the code
+            elif all(str(x).lstrip("-").isdigit() for x in labels):
+                vs = {int(x) for x in labels}
+                included = vs if included is None else included & vs
+    return excluded, included
+
+
+def check_unknown_arm(prog, r):
+    """The unknown-attribute arm stores caller bytes unvalidated: it must refuse every code that has a validating
+    conversion of its own (a dedicated arm in both attr_to_api and attr_from_api)."""
+    fv = view(prog, prog.one(r"rustybgpd::convert::attr_from_api"))
+    tv = view(prog, prog.one(r"rustybgpd::convert::attr_to_api"))
+    to_codes = set()
+    for bi, br in branches(tv).items():
+        if br.expr[0] == "call" and br.expr[1].endswith("Attribute::code"):
+            to_codes |= {int(c) for c, _ in br.cases}
+    from_codes = set()
+    sites = []
+    for bi, t in fv.calls(re.compile(r"rustybgp_packet::bgp::Attribute::new_with_(bin|value)")):
+        e = Renderer(fv, depth=10, through_names=True).operand(t["args"][0], 10)
+        v = ceval(e)
+        if v is None:
+            sites.append((bi, t, e))
+        else:
+            from_codes.add(v)
+    if len(to_codes) < 10 or len(from_codes) < 10:
+        r.unanalysable("attr_to_api arms %d / attr_from_api constant codes %d (want >= 10 each)" % (len(to_codes), len(from_codes)), fv.loc())
+        return
+    # a to_api arm that itself falls back to the unknown form (PREFIX_SID on a parse error) keeps its code admissible
+    fallback = set()
+    tbrs = branches(tv)
+    for bi, si, st_ in tv.aggregates(re.compile(r"rustybgp_api::attribute::Attr"), "Unknown"):
+        for br, labels in guards_of(tv, bi, tbrs):
+            if br.expr[0] == "call" and br.expr[1].endswith("Attribute::code") and all(str(x).isdigit() for x in labels):
+                fallback |= {int(x) for x in labels}
+    need = (to_codes & from_codes) - fallback
+    for bi, t, e in sites:
+        excluded, _ = _code_tests(fv, bi, t, e)
+        miss = sorted(need - excluded)
+        if miss:
+            r.fail(fv.name, "unknown-arm-structured-codes", "the unknown-attribute arm accepts arbitrary bytes for code(s) %s, which have a validating conversion of their own: "
+                   "a malformed AS_PATH / COMMUNITY / ... stored this way is unwrapped later by best-path selection and policy evaluation" % miss, fv.loc(bi))
+        else:
+            r.ok("attr_from_api: unknown-attribute arm refuses the %d codes that have their own conversion" % len(need))
 
 
 def check_value_invariants(prog, r):
